@@ -36,6 +36,6 @@ for off, n, quick in [(0, 0, True), (31, 1, True), (0, 1, False), (1, 1, False),
                   replay_entry="HarnessAlgReplayWindow", stubs=stubs[:1], timeout_ms=600000, exec_timeout_s=(3000 if n == 2 else 900),
                   functions=["edwards25519.geScalarMultVartime", "edwards25519.slide"], bound=("the zero scalar (stale output contents)" if n == 0 else "all scalars whose non-zero bytes are bytes %d..%d (2^%d values incl. the zero scalar), a[31] <= 127; dead branch arms pruned by solver feasibility queries" % (off, off + n - 1, 8 * n)),
                   tiers=(["quick", "thorough"] if quick else ["thorough"]),
-                  mutants=[dict(id="C01b", file="group/edwards25519/ge_mult_vartime.go", old="\t} else if aSlide[i] < 0 {\n\t\tt.Sub(&u, &Ai[(-aSlide[i])/2])\n\t}\n\ti--", new="\t}\n\ti--")] if (off, n) == (31, 1) else []))
+                  mutants=[dict(id="C01c", file="group/edwards25519/ge_mult_vartime.go", old="\t\t} else if aSlide[i] < 0 {\n\t\t\tt.ToExtended(&u)\n\t\t\tt.Sub(&u, &Ai[(-aSlide[i])/2])\n\t\t}", new="\t\t}")] if (off, n) == (31, 1) else []))
 json.dump(dict(property="C01", harnesses=H), open(os.path.join(os.path.dirname(__file__), "..", "specs", "C01alg.json"), "w"), indent=1)
 print(len(H))
